@@ -128,6 +128,14 @@ def run_prealloc(res, ast):
                 # the default trait method forwards to execute (no unchecked code)
                 res.check(bool(pre), "PREALLOC-PAIR", f"{path}|{f['name']}|execute_unsafe", where(path, c, f["name"]),
                           f"{f['name']}: execute_unsafe({ctxarg}) is not preceded by {cname}.memory.make_accessible(..) in this function")
+                # the requested range must be a real one around the start cell: make_accessible(start, end) with start <= 0 < end
+                for m_ in pre:
+                    if len(m_["args"]) == 2:
+                        lo, hi = int_lit(m_["args"][0]), int_lit(m_["args"][1])
+                        if lo is not None and hi is not None:
+                            res.check(lo <= 0 < hi, "PREALLOC-PAIR", f"{path}|{f['name']}|range", where(path, m_, f["name"]),
+                                      f"{f['name']}: the region pre-allocated for unchecked execution is [{lo}, {hi}): it must be a non-empty range around the start cell "
+                                      "(start <= 0 < end); swapped or same-signed bounds allocate nothing")
                 res.files.add(path)
     # default method
     try:
